@@ -182,15 +182,15 @@ Proof.
     destruct (Z.eqb_spec (edge_from (gr d) e) n); [contradiction|]. left. reflexivity.
 Qed.
 
-Theorem remove_id_node_cascade d n :
+Lemma remove_node_db_cascade d n alias :
   wf (gr d) -> 0 < n -> graph_index (gr d) n = true ->
-  exists d',
-    remove_id d n = (d', ROk true) /\
+  exists d0 d',
+    remove_node_db d n alias = (d0, None) /\ d' = remove_all_values d0 n /\
     wf (gr d') /\
     graph_index (gr d') n = false /\ kvs_get (vals d') n = [] /\
     (forall e, In e (out_edges (gr d) n) \/ In e (in_edges (gr d) n) ->
        graph_index (gr d') e = false /\ kvs_get (vals d') e = []) /\
-    (forall al, imap_key (aliases d) n = Some al -> imap_value (aliases d') al = None) /\
+    (forall al, alias = Some al -> imap_value (aliases d') al = None) /\
     (forall i, graph_index (gr d') i = true -> graph_index (gr d) i = true) /\
     node_count (gr d') = node_count (gr d) - 1.
 Proof.
@@ -198,15 +198,14 @@ Proof.
   assert (Hnode : is_node (gr d) n = true).
   { unfold graph_index in Hgi. destruct (Z.ltb_spec n 0); [lia|]. destruct (Z.ltb_spec 0 n); [assumption|lia]. }
   assert (Hwf : wf (gr d)) by (exists aa, fl; exact HS).
-  unfold remove_id. rewrite Hgi. destruct (Z.ltb_spec 0 n) as [_|]; [|lia].
   rewrite remove_node_db_step_eq.
-  set (d1 := match imap_key (aliases d) n with
+  set (d1 := match alias with
              | Some a => with_aliases (push_undo d (CInsertAlias n a))
                                       (imap_remove_key (imap_remove_key (aliases d) a) a)
              | None => d end).
-  assert (G1 : gr d1 = gr d) by (unfold d1; destruct (imap_key (aliases d) n); reflexivity).
-  assert (V1 : vals d1 = vals d) by (unfold d1; destruct (imap_key (aliases d) n); reflexivity).
-  assert (A1 : forall al, imap_key (aliases d) n = Some al -> imap_value (aliases d1) al = None).
+  assert (G1 : gr d1 = gr d) by (unfold d1; destruct alias; reflexivity).
+  assert (V1 : vals d1 = vals d) by (unfold d1; destruct alias; reflexivity).
+  assert (A1 : forall al, alias = Some al -> imap_value (aliases d1) al = None).
   { intros al E. unfold d1. rewrite E. cbn [aliases with_aliases]. apply imap_value_remove_key. }
   cbn zeta. rewrite G1, Hnode. cbn [negb].
   assert (Hneg : forall t, In t (node_edges d1 n) -> fst (fst t) <= 0).
@@ -222,7 +221,7 @@ Proof.
   destruct (remove_node_sim (gr d2) aa2 fl2 n S2 Hn2) as [g3 [fl3 [E3 S3]]]. rewrite E3.
   set (d3 := push_undo (with_gr d2 g3) CInsertNode).
   destruct (rav_proj d3 n) as [P1 [P2 P3]]. cbn [gr aliases vals d3 push_undo with_gr] in P1, P2, P3.
-  exists (remove_all_values d3 n). split; [reflexivity|].
+  exists d3, (remove_all_values d3 n). split; [reflexivity|]. split; [reflexivity|].
   rewrite P1, P2, P3.
   split; [eexists; eexists; exact S3|].
   split.
@@ -249,6 +248,44 @@ Proof.
       apply filter_In in E. apply in_map_iff. exists x. split; [assumption|]. apply I2. tauto. }
   rewrite (sim_node_count _ _ _ S3), (sim_node_count _ _ _ HS). cbn [a_nodes].
   rewrite zrem_length; [rewrite N2; reflexivity|apply (sim_nodes_nodup _ _ _ S2)|assumption].
+Qed.
+
+Theorem remove_id_node_cascade d n :
+  wf (gr d) -> 0 < n -> graph_index (gr d) n = true ->
+  exists d',
+    remove_id d n = (d', ROk true) /\
+    wf (gr d') /\
+    graph_index (gr d') n = false /\ kvs_get (vals d') n = [] /\
+    (forall e, In e (out_edges (gr d) n) \/ In e (in_edges (gr d) n) ->
+       graph_index (gr d') e = false /\ kvs_get (vals d') e = []) /\
+    (forall al, imap_key (aliases d) n = Some al -> imap_value (aliases d') al = None) /\
+    (forall i, graph_index (gr d') i = true -> graph_index (gr d) i = true) /\
+    node_count (gr d') = node_count (gr d) - 1.
+Proof.
+  intros Hwf Hn Hgi.
+  destruct (remove_node_db_cascade d n (imap_key (aliases d) n) Hwf Hn Hgi) as [d0 [d' [E [-> H]]]].
+  exists (remove_all_values d0 n). unfold remove_id. rewrite Hgi.
+  destruct (Z.ltb_spec 0 n) as [_|]; [|lia]. rewrite E. split; [reflexivity|exact H].
+Qed.
+
+(* removal through the alias: remove_q (QAlias a) *)
+Theorem remove_alias_node_cascade d a n :
+  wf (gr d) -> imap_value (aliases d) a = Some n -> 0 < n -> graph_index (gr d) n = true ->
+  exists d',
+    remove_q d (QAlias a) = (d', ROk true) /\
+    wf (gr d') /\
+    graph_index (gr d') n = false /\ kvs_get (vals d') n = [] /\
+    (forall e, In e (out_edges (gr d) n) \/ In e (in_edges (gr d) n) ->
+       graph_index (gr d') e = false /\ kvs_get (vals d') e = []) /\
+    imap_value (aliases d') a = None /\
+    (forall i, graph_index (gr d') i = true -> graph_index (gr d) i = true) /\
+    node_count (gr d') = node_count (gr d) - 1.
+Proof.
+  intros Hwf Ha Hn Hgi.
+  destruct (remove_node_db_cascade d n (Some a) Hwf Hn Hgi) as [d0 [d' [E [-> [H1 [H2 [H3 [H4 [H5 H6]]]]]]]]].
+  exists (remove_all_values d0 n). unfold remove_q. rewrite Ha, E. split; [reflexivity|].
+  split; [exact H1|]. split; [exact H2|]. split; [exact H3|]. split; [exact H4|].
+  split; [apply H5; reflexivity|exact H6].
 Qed.
 
 (* ---------- remove_id on an edge ---------- *)
@@ -282,3 +319,60 @@ Proof.
   split; [apply kvs_get_remove_same|]. split; [exact Hiff|].
   rewrite (sim_node_count _ _ _ S1), (sim_node_count _ _ _ HS). reflexivity.
 Qed.
+
+(* ---------- remove_id is total on a well-formed graph and keeps it well-formed ---------- *)
+
+Theorem remove_id_total d id :
+  wf (gr d) -> exists d' b, remove_id d id = (d', ROk b) /\ wf (gr d') /\ graph_index (gr d') id = false.
+Proof.
+  intros Hwf. destruct (graph_index (gr d) id) eqn:Hgi.
+  - destruct (Z.ltb_spec id 0) as [Hneg|Hpos].
+    + destruct (remove_id_edge_cascade d id Hwf Hneg Hgi) as [d' [E [W [G _]]]]. exists d', true. auto.
+    + assert (0 < id).
+      { unfold graph_index in Hgi. destruct (Z.ltb_spec id 0); [lia|]. destruct (Z.ltb_spec 0 id); [assumption|discriminate]. }
+      destruct (remove_id_node_cascade d id Hwf H Hgi) as [d' [E [W [G _]]]]. exists d', true. auto.
+  - exists d, false. unfold remove_id. rewrite Hgi. auto.
+Qed.
+
+(* the graph mutations of DbImpl keep the graph well-formed *)
+Theorem db_mutations_wf d :
+  wf (gr d) ->
+  wf (gr (snd (insert_node_db d))) /\
+  (forall f t i d', 0 <= f -> 0 <= t -> insert_edge_db d f t = ROk (i, d') -> wf (gr d')) /\
+  (forall id, wf (gr (fst (remove_id d id)))).
+Proof.
+  intros Hwf. split; [|split].
+  - unfold insert_node_db. pose proof (wf_insert_node (gr d) Hwf) as H.
+    destruct (insert_node (gr d)) as [i g]. exact H.
+  - intros f t i d' Hf Ht E. unfold insert_edge_db in E.
+    destruct (insert_edge (gr d) f t) as [[i0 g]|] eqn:E0; [|discriminate].
+    injection E as <- <-. cbn [gr push_undo with_gr]. exact (wf_insert_edge (gr d) f t i0 g Hwf Hf Ht E0).
+  - intros id. destruct (remove_id_total d id Hwf) as [d' [b [E [W _]]]]. rewrite E. exact W.
+Qed.
+
+(* ---------- example: nodes 1 2 3 (1 aliased "a"), edges 1->2 (-4), 2->1 (-5), 1->1 (-6), 2->3 (-7),
+   values on node 1 and on edges -4 -6 -7; removing node 1 removes -4 -5 -6 with their values and the alias,
+   keeps node 2, 3 and edge -7 with its value ---------- *)
+
+Definition ex_db : db :=
+  let d := snd (insert_node_db (snd (insert_node_db (snd (insert_node_db db_new))))) in
+  let d := insert_new_alias d 1 [x61] in
+  let ins d f t := match insert_edge_db d f t with ROk (_, d') => d' | RErr _ => d end in
+  let d := ins (ins (ins (ins d 1 2) 2 1) 1 1) 2 3 in
+  let kvp (n : Z) : kv := (DI64 n, DI64 (n * 10)) in
+  insert_key_value (insert_key_value (insert_key_value (insert_key_value d 1 (kvp 1)) (-4) (kvp 4)) (-6) (kvp 6)) (-7) (kvp 7).
+
+Lemma ex_cascade :
+  elements (gr ex_db) = [1; 2; 3; -4; -5; -6; -7] /\
+  imap_value (aliases ex_db) [x61] = Some 1 /\
+  out_edges (gr ex_db) 1 = [-6; -4] /\ in_edges (gr ex_db) 1 = [-6; -5] /\
+  match remove_id ex_db 1 with
+  | (d', ROk true) =>
+      elements (gr d') = [2; 3; -7] /\ node_count (gr d') = 2 /\
+      imap_value (aliases d') [x61] = None /\
+      kvs_get (vals d') 1 = [] /\ kvs_get (vals d') (-4) = [] /\ kvs_get (vals d') (-6) = [] /\
+      kvs_get (vals d') (-7) = [(DI64 7, DI64 70)] /\
+      out_edges (gr d') 2 = [-7] /\ in_edges (gr d') 2 = []
+  | _ => False
+  end.
+Proof. vm_compute. repeat split; reflexivity. Qed.
